@@ -571,3 +571,84 @@ def f_objfresh(repo):
                                    % (fn, fname, "".join(want), "".join(got) if isinstance(got, list) else got),
                                    "site": "%s:%s:%s" % (DATA, fn, fname), "file": rel, "line": src.t(p).line, "fn": fn, "probe": ASSERT_PROBE})
     return {"name": "F-objfresh", "obligations": n, "failed": failed, "samples": samples}
+
+
+# =====================================================================================
+# F-lexpos (C14): the lexer's positions are moved, and tokens are built, only by the position
+# primitives whose contracts unit lexprim discharges; next_token begins by consuming a byte.
+# =====================================================================================
+LEX = "lexer/mod.rs"
+TILING_PROBE = [
+    {"source": "{ a: [1, 2.5e3, 'x\\u00e9', @'v''v', |||\n  t\n|||], /* c */ b:: self.a, # d\n c+: 3 }", "oracle": {"oracle": "no_crash"}},
+]
+
+
+@frame.frame("C14")
+def f_lexpos(repo):
+    """C14: in lexer/mod.rs, `end_pos` is assigned only inside the position primitives (eat_byte, eat_byte_if,
+    eat_get_byte_if, eat_map_byte, eat_slice, eat_any_byte, eat_cont_any_char, lex_operator) and initialised in
+    `new`; `start_pos` is assigned only in commit_token (and initialised in `new`); a `Token { .. }` value is built
+    only in commit_token; the EndOfFile kind is produced only by the `None` arm of next_token's first match, which
+    is on `self.eat_any_byte()`."""
+    rel = LANG + "/" + LEX
+    src = load(repo, rel)
+    n, failed, samples = 0, [], []
+    END_OK = {"eat_byte", "eat_byte_if", "eat_get_byte_if", "eat_map_byte", "eat_slice", "eat_any_byte", "eat_cont_any_char", "lex_operator"}
+
+    def add_fail(what, p, fn):
+        failed.append({"obligation": "C14:F-lexpos: %s (found at %s:%d in fn %s)" % (what, rel, src.t(p).line, fn),
+                       "site": "%s:%s:%s" % (LEX, fn, what[:30]), "file": rel, "line": src.t(p).line, "fn": fn, "probe": TILING_PROBE})
+
+    # impl Lexer only (the tests module also names these)
+    pk, po, pc, _ = src.resolve("impl:Lexer")
+    impl_ranges = []
+    for p in src.find_impls("Lexer", None):
+        o = src.impl_header(p)[2]
+        impl_ranges.append((o, src.match[o]))
+    def in_impl(p):
+        return any(a < p < b for a, b in impl_ranges)
+    seen_end = seen_start = 0
+    for p in range(src.n() - 3):
+        if not in_impl(p):
+            continue
+        if src.t(p).text == "self" and src.t(p + 1).text == "." and src.t(p + 2).text in ("end_pos", "start_pos"):
+            nxt, nxt2 = src.t(p + 3).text, src.t(p + 4).text
+            assigns = (nxt == "=" and nxt2 != "=") or (nxt in "+-*/" and nxt2 == "=")
+            if not assigns:
+                continue
+            fn, _ = frame.enclosing_fn(src, p)
+            n += 1
+            if src.t(p + 2).text == "end_pos":
+                seen_end += 1
+                if fn not in END_OK:
+                    add_fail("end_pos is moved only by the position primitives %s" % sorted(END_OK), p, fn)
+                elif nxt == "-" :
+                    add_fail("end_pos is never decremented", p, fn)
+                elif len(samples) < 3:
+                    samples.append("C14:F-lexpos: end_pos assigned in %s (a position primitive under contract)" % fn)
+            else:
+                seen_start += 1
+                if fn != "commit_token":
+                    add_fail("start_pos is moved only by commit_token", p, fn)
+        if src.t(p).text == "Token" and src.t(p + 1).text == "{" and src.t(p - 1).text not in ("struct", "enum", ">", "::"):
+            fn, _ = frame.enclosing_fn(src, p)
+            if fn is not None:
+                n += 1
+                if fn != "commit_token":
+                    add_fail("a Token value is built only by commit_token", p, fn)
+        if src.t(p).text == "EndOfFile" and src.t(p - 1).text == ":" and src.t(p - 3).text == "TokenKind" and src.t(p - 4).text == "(" and src.t(p - 5).text == "commit_token":
+            fn, _ = frame.enclosing_fn(src, p)
+            n += 1
+            if fn != "next_token":
+                add_fail("the end-of-file token is produced only by next_token", p, fn)
+    if seen_end < 5 or seen_start < 1:
+        raise LostAnchor("F-lexpos: position assignments not found (anchor lost)")
+    # next_token starts with `match self.eat_any_byte() { None => Ok(self.commit_token(TokenKind::EndOfFile)),`
+    pk, po, pc, _ = src.resolve("impl:Lexer/fn:next_token")
+    head = [src.t(q).text for q in range(po + 1, min(po + 24, pc))]
+    want = ["match", "self", ".", "eat_any_byte", "(", ")", "{", "None", "=", ">", "Ok", "(", "self", ".", "commit_token", "(", "TokenKind", ":", ":", "EndOfFile", ")", ")", ","]
+    n += 1
+    if head[:len(want)] != want:
+        failed.append({"obligation": "C14:F-lexpos: next_token begins by consuming one byte and yields the end-of-file token exactly when there is none (found `%s`)" % " ".join(head[:12]),
+                       "site": "%s:next_token:head" % LEX, "file": rel, "line": src.t(po).line, "fn": "next_token", "probe": TILING_PROBE})
+    return {"name": "F-lexpos", "obligations": n, "failed": failed, "samples": samples}
